@@ -213,8 +213,8 @@ fn open_pty() -> std::io::Result<(File, File)> {
 impl Fds {
     fn new() -> std::io::Result<Fds> {
         let (pty_master, pty_slave) = open_pty()?;
-        let _ = std::fs::create_dir_all("/verif/target/tmp");
-        let disk_path = format!("/verif/target/tmp/envsim-{}.out", std::process::id());
+        let _ = std::fs::create_dir_all(&format!("{}/target/tmp", crate::report::verif_root()));
+        let disk_path = format!("{}/target/tmp/envsim-{}.out", crate::report::verif_root(), std::process::id());
         let disk = File::create(&disk_path)?;
         Ok(Fds { pty_master, pty_slave, disk, disk_path })
     }
@@ -1139,14 +1139,14 @@ pub struct EnvBatch {
 pub fn run_parent(mode: &str, seed: u64, histories: u64, children: usize, sweep: bool) -> EnvBatch {
     let start_t = std::time::Instant::now();
     let exe = std::env::current_exe().expect("current_exe");
-    let _ = std::fs::create_dir_all("/verif/target/tmp");
+    let _ = std::fs::create_dir_all(&format!("{}/target/tmp", crate::report::verif_root()));
     let children = children.max(1);
     let per = histories.div_ceil(children as u64);
     let mut procs = Vec::new();
     for k in 0..children {
         let a = (k as u64 * per).min(histories);
         let b = ((k as u64 + 1) * per).min(histories);
-        let report = format!("/verif/target/tmp/envsim-report-{}-{mode}-{k}.json", std::process::id());
+        let report = format!("{}/target/tmp/envsim-report-{}-{mode}-{k}.json", crate::report::verif_root(), std::process::id());
         let child = std::process::Command::new(&exe)
             .args(["envchild", mode, &seed.to_string(), &a.to_string(), &b.to_string(), if sweep && k == 0 { "1" } else { "0" }, &report])
             .stdin(std::process::Stdio::null())
